@@ -88,6 +88,12 @@ class WorkerRun:
 
 LEADER = "github.com/ali-assar/NATS-Leader-Election/leader."
 
+def _fn_of_line(ln):
+    """'github.com/.../leader.(*kvElection).logWithContext(0x0?, {0x0, 0x0})' -> 'logWithContext'"""
+    nm = ln[len(LEADER):]
+    nm = re.sub(r"\((?:[^()]|\{[^}]*\})*\)\s*$", "", nm)   # trailing argument list
+    return clean_fn(nm)
+
 def classify_crash(rc, errtxt):
     """Returns (kind, sig, detail) for a worker that died. kind: 'panic' | 'deadlock' | 'trouble'"""
     if "WATCHDOG: no simulator progress" in errtxt:
@@ -95,13 +101,7 @@ def classify_crash(rc, errtxt):
         frames = []
         for g in errtxt.split("\n\n"):
             if ("sync.(*Mutex).Lock" in g or "sync.(*RWMutex).Lock" in g or "sync.(*RWMutex).RLock" in g) and LEADER in g:
-                fr = [ln.split("(")[0].replace(LEADER, "") if False else ln for ln in g.split("\n") if ln.startswith(LEADER)]
-                names = []
-                for ln in fr[:3]:
-                    nm = ln[len(LEADER):]
-                    nm = re.sub(r"\(0x[0-9a-f?, x{}.]*\)$", "", nm)
-                    nm = re.sub(r"\(.*\)$", "", nm) if nm.endswith(")") else nm
-                    names.append(clean_fn(nm))
+                names = [_fn_of_line(ln) for ln in g.split("\n") if ln.startswith(LEADER)][:3]
                 frames.append("<".join(names))
         if frames:
             frames = sorted(set(frames))
@@ -110,21 +110,20 @@ def classify_crash(rc, errtxt):
     m = re.search(r"^(panic: .*|fatal error: .*)$", errtxt, re.M)
     if m:
         head = m.group(1)
-        # first goroutine trace after the panic line
         tail = errtxt[m.end():]
+        # the panicking goroutine is the first one printed
+        first_g = tail.split("\n\n")[1] if tail.startswith("\n") or True else tail
+        blocks = [b for b in tail.split("\n\n") if b.strip().startswith("goroutine ")]
         first = None
-        for ln in tail.split("\n"):
-            if ln.startswith(LEADER):
-                first = clean_fn(re.sub(r"\(.*$", "", ln[len(LEADER):]))
-                break
-            if ln.startswith("verifsim.") and first is None and "panic" not in ln:
-                # harness frame before any library frame
-                pass
+        if blocks:
+            for ln in blocks[0].split("\n"):
+                if ln.startswith(LEADER):
+                    first = _fn_of_line(ln)
+                    break
         if first is None:
             return "trouble", "harness-panic", head + "\n" + tail[:3000]
-        kind = "panic"
-        what = "nil-deref" if "nil pointer" in head else ("stack-overflow" if "stack overflow" in head or "goroutine stack exceeds" in head else re.sub(r"[^a-zA-Z]+", "-", head[:40]))
-        return kind, "panic/%s/%s" % (what, first), head
+        what = "nil-deref" if "nil pointer" in head else ("stack-overflow" if "stack overflow" in head or "goroutine stack exceeds" in head else re.sub(r"[^a-zA-Z]+", "-", head[7:60]).strip("-"))
+        return "panic", "panic/%s/%s" % (what, first), head
     return "trouble", "exit-%d" % rc, errtxt[-3000:]
 
 def clean_fn(nm):
